@@ -18,8 +18,12 @@ MUTANTS = [
     {'name': 'chandrupatla-terminate-on-any', 'rule': 'D3.lanes', 'file': O, 'old': "        iterations += 1 - terminate\n", 'new': "        iterations += 1 - terminate\n        tlim = tlim * (1 + 0 * np.any(terminate))\n"},
     {'name': 'bisect-copies-keep-caller-dtype', 'rule': 'D6.float', 'file': O, 'old': "    xmin, xmax = np.array(xmin, dtype=float), np.array(xmax, dtype=float)", 'new': "    xmin, xmax = np.array(xmin), np.array(xmax)"},
     {'name': 'bisect-int-buffers', 'rule': 'D6.float', 'file': O, 'old': "    xmin, xmax = np.array(xmin, dtype=float), np.array(xmax, dtype=float)", 'new': "    xmin, xmax = np.array(xmin, dtype=int), np.array(xmax, dtype=float)"},
+    {'name': 'chandrupatla-absolute-tolerance-of-bisect', 'rule': 'D5.tol', 'file': O, 'old': "        eps_a = 2 * eps\n", 'new': "        eps_a = 1e-8\n"},
+    {'name': 'chandrupatla-relative-tolerance-float32', 'rule': 'D5.tol', 'file': O, 'old': "    eps = np.finfo(float).eps\n", 'new': "    eps = np.finfo(np.float32).eps\n"},
+    {'name': 'chandrupatla-signature-default-tolerance', 'rule': 'D5.tol', 'file': O, 'old': "def chandrupatla(f, xmin, xmax, eps_m=None, eps_a=None, maxiter=50):", 'new': "def chandrupatla(f, xmin, xmax, eps_m=None, eps_a=1e-6, maxiter=50):"},
 ]
 REWRITES = [
+    {'name': 'chandrupatla-tolerance-ifexp', 'file': O, 'old': "    if eps_a is None:\n        eps_a = 2 * eps\n", 'new': "    eps_a = 2 * eps if eps_a is None else eps_a\n"},
     {'name': 'bisect-float-by-astype', 'file': O, 'old': "    xmin, xmax = np.array(xmin, dtype=float), np.array(xmax, dtype=float)", 'new': "    xmin = np.array(xmin).astype(np.float64)\n    xmax = np.array(xmax, dtype='float64')"},
     {'name': 'bisect-where-form', 'file': O, 'old': "        xmin[fguess <= 0] = guess[fguess <= 0]\n        xmax[fguess >= 0] = guess[fguess >= 0]", 'new': "        xmin = np.where(fguess <= 0, guess, xmin)\n        xmax = np.where(fguess >= 0, guess, xmax)"},
     {'name': 'bisect-mask-temp', 'file': O, 'old': "        xmin[fguess <= 0] = guess[fguess <= 0]\n", 'new': "        below = fguess <= 0\n        xmin[below] = guess[below]\n"},
